@@ -85,6 +85,12 @@ Theorem C16_reply_exact : forall H C pre rest st r B,
   ROk (map (mkd H (c_wrap C) (r_plus r)) (take_fit (dirent_size (r_plus r)) (r_size r) (visible B))).
 Proof. exact step_resume. Qed.
 
+(* the two places that test a record name for "." / ".." - the batch-discard decision of the re-read loop
+   ([is_dot_batch], only_dot_entries) and the per-record filter ([is_dot]) - agree on EVERY name; C16_full
+   rests on this: a name such as "..data" is an ordinary entry for both *)
+Theorem C16_dot_tests_agree : forall e, is_dot_batch e = is_dot e.
+Proof. exact dot_batch_agrees. Qed.
+
 (* no reply exceeds the requested size: unconditional (any state, request, host) *)
 Theorem C16_size_respected : forall H C d st r reply,
   fst (step H C d st r) = ROk reply -> reply_bytes (r_plus r) reply <= r_size r.
@@ -226,6 +232,7 @@ Print Assumptions C16_exactly_once_partial.
 Print Assumptions C16_listing_content.
 Print Assumptions C16_resume_safety.
 Print Assumptions C16_reply_exact.
+Print Assumptions C16_dot_tests_agree.
 Print Assumptions C16_size_respected.
 Print Assumptions C16_cache_invariant.
 Print Assumptions C16_cookie_cache_sound.
